@@ -578,7 +578,12 @@ impl tower::Service<http::request::Parts> for Routes {
     fn call(&mut self, parts: http::request::Parts) -> Self::Future {
         let authority = parts.uri.authority().map(|a| a.as_str().to_ascii_lowercase()).unwrap_or_default();
         let scheme = parts.uri.scheme_str().unwrap_or("").to_string();
-        let target = self.table.lock().unwrap().get(&authority).cloned();
+        // an entry "tls|authority" / "plain|authority" (by the scheme the transport is asked for) wins over "authority"
+        let class = if scheme.eq_ignore_ascii_case("https") || scheme.eq_ignore_ascii_case("wss") { "tls" } else { "plain" };
+        let target = {
+            let t = self.table.lock().unwrap();
+            t.get(&format!("{class}|{authority}")).or_else(|| t.get(&authority)).cloned()
+        };
         let log = self.log.clone();
         let taps = self.taps.clone();
         let tap_enabled = self.tap_enabled;
